@@ -147,7 +147,7 @@ PROPS = {
                 "(Encode, IsIdentity, IsZero, all Equal pairs, LessOrEqual pairs, curve membership). Non-trivial = history with >= 10 "
                 "steps, >= 1 aliased call and >= 1 operation producing Z != 1. Distinct by hash of the whole history. Action e.repr changes the representation of an element without changing its value (API recipes; re-scaling and coordinate targets in the white-box build).",
         "units": [unit("props", "^TestC10", tier(12000, 8, 900), tier(480000, 16, 5400), overlay="access")],
-        "checks_expected": ["C10/history", "C10/long-lived", "C10/many-objects"],
+        "checks_expected": ["C10/history", "C10/long-lived", "C10/many-objects", "C10/new-api"],
     },
     "C15": {
         "rule": "cases (call, arguments, layouts): call from 29 API functions in four groups - hashing (msg, DST), decoders (input "
